@@ -125,7 +125,7 @@ Qed.
 (* ---------- facts from wf ---------- *)
 Lemma wf_ncells s : wf s -> ncells (c_nh s) (c_nb s) = c_nh s * c_nb s.
 Proof.
-  intros (_ & _ & _ & Hc & _). unfold ncells. apply w32_small. unfold two32. lia.
+  intros _. unfold ncells. reflexivity.
 Qed.
 
 Lemma wf_ctor_ok s : wf s -> ctor_ok (c_nh s) (c_nb s) = true.
